@@ -141,6 +141,9 @@ def modinfo_c(prog):
 def install_modinfo(units, prog):
     tv.MODINFO['f'] = dict(tv.EXTERNAL_MOD)
     tv.MODINFO['f'].update(modinfo_f(units))
+    # the reference's `fermi` clamps its by-reference energy argument up to 50 eV; the port takes it by value.
+    # Treated as by-value on both sides (DESIGN.md: accepted by-reference artefact).
+    tv.MODINFO['f']['fermi'] = set()
     tv.MODINFO['c'] = modinfo_c(prog)
 
 
@@ -179,6 +182,8 @@ def compare_unit(u, fn, sigs=None, kernel=None, opts=None):
         ctree = _inline(ctree, cpp2ir.short(kernel['qn']), ktree, kparams)
         decl_zero += klo.decl_zero
     sc = tv.Side('c', fn['name'], [p['name'] for p in params])
+    sc.keep_underscore = {p['name'] for p in params if p['name'].rstrip('_') in lo.locals
+                          or (kernel is not None and p['name'].rstrip('_') in klo.locals)}
     gc = cfgm.build(ctree)
     tv.rewrite_cfg(gc, sc)
     cparams = [sc.var(p['name'])[1] for p in params if p['ty'] not in cpp2ir.CTX_TYPES and p['name'] != '']
@@ -187,17 +192,30 @@ def compare_unit(u, fn, sigs=None, kernel=None, opts=None):
     cout = set(cparams) | sc.fld_vars | {'prng', 'event'}
     if fres:
         fout.add('$result')
+    fall = set(fout)
+    cpar = [p for p in params if p['ty'] not in cpp2ir.CTX_TYPES and p['name'] != '']
+    if len(cpar) == len(fparams) and kernel is None:
+        for fp, cp in zip(fparams, cpar):
+            if cp['pm'] in ('v', 'cref', 'cptr') and not cp['ty'].rstrip().endswith(']'):
+                fout.discard(fp)      # the port takes this argument by value: not an output on either side
     gf, hf = tv.event_idioms(gf, 'f')
     gc, hc = tv.event_idioms(gc, 'c')
     if hf:
         fout.discard('npfull')
         fout.discard('pmoment')
-    for hook in opts.get('pre', ()):
-        gf, gc = hook(gf, gc, sf, sc)
     r = Result()
+    for hook in ADMISSIBLE_HOOKS.get(u.name, ()):
+        gf, gc = hook(gf, gc, sf, sc, r.admissible)
+    extra = ADMISSIBLE_OUTPUTS.get(u.name, set())
+    fout |= extra
+    cout |= extra
     # names of external procedures passed as arguments are not variables
     ext = {e.lower() for e in u.externals}
-    gf = tv.unassigned_locals_to_zero(gf, fout | ext, r.admissible)
+    finputs = fall | ext | set(fparams)
+    gf = tv.unassigned_locals_to_zero(gf, finputs, r.admissible)
+    gf = tv.split_webs(cfgm.compact(gf, drop=('nop', 'io')), fout | ext | set(fparams), 'f', r.admissible,
+                       inputs=finputs)
+    gc = tv.split_webs(cfgm.compact(gc, drop=('nop', 'io')), cout | set(cparams), 'c')
     gf = tv.normalise_cfg(gf, fout, [], lang='f')
     gc = tv.normalise_cfg(gc, cout, [], lang='c')
     r.gf, r.gc, r.cfn = gf, gc, fn
@@ -223,3 +241,125 @@ def compare_unit(u, fn, sigs=None, kernel=None, opts=None):
             r.mism, r.nodes, r.bind, rec = ps
             r.admissible = rec
     return r
+
+
+# --------------------------------------------------------------------------------------------------
+# Admissible differences (DESIGN.md 2.4): explicit, per unit, each taken from the property text or a
+# documented repository decision.  Every use is recorded in the evidence.
+def _adm_pair_swap(gf, gc, sf, sc, rec):
+    """`pair`: the port emits e- then e+ (the reference e+ then e-): swap the species codes on the port side"""
+    n = 0
+    for x in gc.nodes:
+        if x.kind == 'call' and x.stmt[1] == 'particle' and x.stmt[2] and x.stmt[2][0][0] == 'num' \
+                and x.stmt[2][0][1] in (2, 3):
+            a = list(x.stmt[2])
+            a[0] = ('num', 5 - a[0][1])
+            x.stmt = ('call', x.stmt[1], tuple(a), x.stmt[3])
+            n += 1
+    rec.append(('pair-order', 0, 'e+/e- emission order swapped in %d calls' % n))
+    return gf, gc
+
+
+def _adm_y90_region(gf, gc, sf, sc, rec):
+    """`Y90`: the node `call pair(0.739, ...)` of the reference is replaced in the port by a single-entry
+    single-exit region (revised positron spectrum, README 1.0.8).  The region is collapsed to that call."""
+    target = None
+    for x in gf.nodes:
+        if x.kind == 'call' and x.stmt[1] == 'pair' and x.stmt[2] and x.stmt[2][0] == ('num', ir.dec('0.739')):
+            target = x
+    if target is None:
+        raise AnalysisBroken('Y90: reference node call pair(0.739,..) not found')
+    preds = gc.preds()
+    cands = [x for x in gc.nodes if x.kind == 'assign' and x.stmt[1] == ('var', 'phi') and ir.count_draws(x.stmt[2])]
+    if len(cands) != 1:
+        return gf, gc          # region absent (e.g. the original Y90.cc is compiled): compare normally
+    start = cands[0]
+    reach = gc.reachable(start.id)
+    rets = [i for i in reach if gc.nodes[i].kind in ('return',)]
+    if len(rets) != 1 or any(gc.nodes[i].kind == 'throw' for i in reach):
+        raise AnalysisBroken('Y90: replacement region is not single-exit')
+    for i in reach:
+        if i != start.id and any(p not in reach for p in preds[i]) and i != rets[0]:
+            raise AnalysisBroken('Y90: replacement region is entered from outside')
+    calls = [gc.nodes[i] for i in sorted(reach) if gc.nodes[i].kind == 'call']
+    if [c.stmt[1] for c in calls] != ['particle', 'particle']:
+        raise AnalysisBroken('Y90: replacement region does not emit exactly two particles')
+    last = max(gc.nodes[i].line for i in reach if gc.nodes[i].kind != 'return')
+    start.kind = 'call'
+    start.stmt = target.stmt[:3] + (start.line,)
+    start.succ = [rets[0]]
+    rec.append(('y90-region', start.line, 'revised pair-positron spectrum region (lines %d-%d) stands for '
+                'call pair(0.739, ...)' % (start.line, last)))
+    return gf, gc
+
+
+def _adm_particle(gf, gc, sf, sc, rec):
+    """`particle`: event-record writes.  reference: npfull=npfull+1; npgeant(npfull)=np; pmoment(k,npfull)=..;
+    ptime(npfull)=tdlev.  port: part.set_code/set_time(last_time + tdlev)/set_momentum; add_particle(part).
+    Both become writes to $new.code/$new.pK/$new.time; the port's `last_time +` is the documented
+    absolute-instead-of-incremental time (admissible)."""
+    F0 = ('num', ir.Fraction(0))
+    for x in gf.nodes:
+        if x.kind == 'assign':
+            l, r = x.stmt[1], x.stmt[2]
+            if l == ('var', 'npfull'):
+                x.kind = 'nop'
+            elif l[0] == 'idx' and l[1] == 'npgeant':
+                x.stmt = ('assign', ('var', '$new.code'), r, x.stmt[3])
+            elif l[0] == 'idx' and l[1] == 'ptime':
+                x.stmt = ('assign', ('var', '$new.time'), r, x.stmt[3])
+            elif l[0] == 'idx' and l[1] == 'pmoment' and l[2][0] == 'num':
+                x.stmt = ('assign', ('var', '$new.p%d' % int(l[2][1])), r, x.stmt[3])
+            if x.kind == 'assign':
+                x.stmt = ('assign', x.stmt[1], ir.map_expr(
+                    lambda e: ('call', 'mass') + e[2:] if e[0] == 'idx' and e[1] == 'datamass' else e, x.stmt[2]),
+                    x.stmt[3])
+    for x in list(gc.nodes):
+        if x.kind == 'call':
+            name, a = x.stmt[1], x.stmt[2]
+            if name == 'particle::set_code':
+                x.kind, x.stmt = 'assign', ('assign', ('var', '$new.code'), a[1], x.stmt[3])
+            elif name == 'particle::set_time':
+                t = ir.map_expr(lambda e: F0 if e == ('var', 'last_time') else e, a[1])
+                x.kind, x.stmt = 'assign', ('assign', ('var', '$new.time'), tv.canon(t), x.stmt[3])
+                if t != a[1]:
+                    rec.append(('absolute-times', x.line, 'port stores last_time + tdlev (absolute emission time)'))
+            elif name == 'particle::set_momentum':
+                l = x.stmt[3]
+                x.kind, x.stmt = 'assign', ('assign', ('var', '$new.p1'), a[1], l)
+                n2 = gc.new('assign', ('assign', ('var', '$new.p2'), a[2], l), x.line)
+                n3 = gc.new('assign', ('assign', ('var', '$new.p3'), a[3], l), x.line)
+                n3.succ = list(x.succ)
+                n2.succ = [n3.id]
+                x.succ = [n2.id]
+            elif name == 'event::add_particle':
+                x.kind = 'nop'
+        if x.kind == 'assign':
+            x.stmt = ('assign', x.stmt[1], ir.map_expr(
+                lambda e: ('call', 'mass') + e[2:] if e[0] == 'call' and e[1] == 'particle_mass_mev' else e,
+                x.stmt[2]), x.stmt[3])
+    return gf, gc
+
+
+def _adm_fermi(gf, gc, sf, sc, rec):
+    """`fermi`: CERNLIB cgamma replaced by GSL's log-gamma: `lnr` (= res_lnr.val after
+    gsl_sf_lngamma_complex_e(g, y, ...)) stands for log(cabs(cgamma(cmplx(g, y)))); third-party numerics are
+    call-level opaque on both sides"""
+    args = None
+    for x in gc.nodes:
+        if x.kind == 'assign' and x.stmt[2][0] == 'call' and x.stmt[2][1] == 'gsl_sf_lngamma_complex_e':
+            args = x.stmt[2][2:4]
+            x.kind = 'nop'
+    if args is None:
+        return gf, gc
+    for x in gc.nodes:
+        if x.kind == 'assign' and x.stmt[2] == ('var', '.val'):
+            x.stmt = ('assign', x.stmt[1], ('op', 'log', ('op', 'cabs', ('call', 'cgamma', ('op', 'cmplx') + args))),
+                      x.stmt[3])
+    rec.append(('third-party-numerics', 0, 'gsl_sf_lngamma_complex_e(g, y) stands for log|cgamma(g + iy)|'))
+    return gf, gc
+
+
+ADMISSIBLE_HOOKS = {'pair': [_adm_pair_swap], 'y90': [_adm_y90_region], 'particle': [_adm_particle],
+                    'fermi': [_adm_fermi]}
+ADMISSIBLE_OUTPUTS = {'particle': {'$new.code', '$new.time', '$new.p1', '$new.p2', '$new.p3'}}
